@@ -110,6 +110,14 @@ def random_spec(rng):
               rng.choice([None, 1, 2, 3, 4])) for _ in range(rng.choice([0, 1, 2, 2, 3]))]
     services = [rng.choice(["s", "t"]) for _ in range(rng.choice([0, 1, 2]))]
     devices = [(rng.choice(["d", "e"]), rng.choice([None, [], ["s"], ["t"], ["s", "t"]])) for _ in range(rng.choice([0, 0, 1, 2]))]
+    # the very same declaration twice (a module merged along two import paths, a tree assembled by a tool): equal in every attribute,
+    # still two declarations of one name
+    if structs and rng.random() < 0.08:
+        k = rng.randrange(len(structs))
+        structs.insert(rng.randint(0, len(structs)), (structs[k][0], list(structs[k][1])))
+    if enums and rng.random() < 0.08:
+        k = rng.randrange(len(enums))
+        enums.insert(rng.randint(0, len(enums)), (enums[k][0], list(enums[k][1])))
     return {"structs": structs, "enums": enums, "impls": impls, "services": services, "devices": devices}
 
 
@@ -157,7 +165,7 @@ def run(chk):
     quick = chk.tier == "quick"
     broken = chk.proof_obligations(["Corr/Verifier.vo"])
     chk.coverage["rule"] = (
-        "trees built directly as FcpV2 objects from small alphabets (to force collisions): random trees, otherwise well-formed trees whose one CAN-bound struct totals 56..73 bits (only the size rule decides), and in the thorough tier an "
+        "trees built directly as FcpV2 objects from small alphabets (to force collisions): random trees (one in twelve holds the very same struct or enum declaration twice), otherwise well-formed trees whose one CAN-bound struct totals 56..73 bits (only the size rule decides), and in the thorough tier an "
         "exhaustive small scope (<=2 structs x <=2 fields, <=1 enum, <=2 impls, <=1 device); each x {no plug-in, dbc, can_c} and a random "
         "permutation of every declaration list; non-trivial = at least two declarations; distinct = (tree, plug-in)")
     specs = [random_spec(chk.rng) for _ in range(1200 if quick else 12000)] + [boundary_spec(chk.rng) for _ in range(120 if quick else 1500)]
